@@ -410,10 +410,18 @@ def compare_nf(a, b, width_hint=None):
             _, sy, gy, by, iy, ky, dy = y
             if sx and sy and sx != sy:
                 return 'op%d.size(%s/%s)' % (i, sx, sy)
-            if (bx, ix) != (by, iy):
-                return 'op%d.base-index' % i
-            if ix and kx != ky:
-                return 'op%d.scale' % i
+            if (bx, ix, kx if ix else 1) != (by, iy, ky if iy else 1):
+                # the same linear form (eax+eax = eax*2) is the same address unless esp/ebp roles (default segment) are involved
+                def lin(b_, i_, k_):
+                    d = {}
+                    if b_:
+                        d[b_] = d.get(b_, 0) + 1
+                    if i_:
+                        d[i_] = d.get(i_, 0) + k_
+                    return d
+                la, lb = lin(bx, ix, kx), lin(by, iy, ky)
+                if la != lb or ({bx, ix, by, iy} & {'esp', 'ebp', 'bp'}):
+                    return 'op%d.base-index' % i if (bx, ix) != (by, iy) else 'op%d.scale' % i
             dm = 16 if (bx in ('bx', 'bp', 'si', 'di') or ix in ('si', 'di')) else 32
             if (dx - dy) % (1 << dm) != 0:
                 return 'op%d.disp' % i
